@@ -27,13 +27,21 @@ W = 64  # item coding of the model driver: sizes must stay below
 
 # --------------------------------------------------------------------------- cases
 
-def fmt_case(P, mode, d, buf, seed, NI, entries, sizes):
+DEFAULT_BUF = 32768     # only used to classify cases (features); the model takes the value re-read from the source
+MACRO_BUF = 5           # the second impl binary is compiled with -DDUNE_PARALLEL_MAX_COMMUNICATION_BUFFER_SIZE=5
+API = {0: "ctor(MPI_Comm,map,size)", 1: "ctor(MPI_Comm,map)", 2: "ctor(Interface,size)", 3: "ctor(Interface)", 4: "copy-ctor",
+       5: "copy-assign+self-assign", 6: "object reused", 7: "non-default Allocator"}
+DTYPE = {0: "long", 1: "double", 2: "int", 3: "POD struct (generic MPITraits)", 4: "std::pair<int,double>"}
+
+
+def fmt_case(P, mode, d, buf, seed, NI, entries, sizes, v=0, t=0, mb=0):
+    tail = [v, t, mb]
     t = [P, mode, d, buf, seed, NI, len(entries)]
     for (p, q, f, s) in entries:
         t += [p, q, len(f)] + f + [len(s)] + s
     for r in sizes:
         t += r
-    return " ".join(map(str, t))
+    return " ".join(map(str, t + tail))
 
 
 def parse_case(line):
@@ -48,7 +56,10 @@ def parse_case(line):
         s = t[i:i + n2]; i += n2
         es.append((p, q, f, s))
     sizes = [t[i + r * NI: i + (r + 1) * NI] for r in range(P)]
-    return dict(P=P, mode=mode, dir=d, buf=buf, seed=seed, NI=NI, entries=es, sizes=sizes)
+    i += P * NI
+    v, dt, mb = (t[i:i + 3] + [0, 0, 0])[:3]
+    eff = buf if v not in (1, 3) else (mb or DEFAULT_BUF)      # buffer the constructor ends up with
+    return dict(P=P, mode=mode, dir=d, buf=eff, buf_field=buf, seed=seed, NI=NI, entries=es, sizes=sizes, v=v, t=dt, mb=mb)
 
 
 def links_of(c):
@@ -81,13 +92,18 @@ def features(c):
     return f
 
 
-def gen_one(rng, maxP, allow_allzero, force_allzero=False):
+def gen_one(rng, maxP, allow_allzero, force_allzero=False, mb=0):
     P = rng.choice([1, 2, 2, 3, 3, 4, 4, 5, 6][: 3 + 2 * (maxP - 2)] if maxP >= 2 else [1])
     P = min(P, maxP)
     mode = rng.choice([0, 1, 1])
     d = rng.choice([0, 1])
     NI = rng.choice([1, 2, 3, 4, 6])
     buf = rng.choice([1, 2, 3, 4, 5, 7, 8, 16, 40, 32768])
+    v = 0 if rng.random() < 0.45 else rng.randrange(8)
+    dt = 0 if rng.random() < 0.3 else rng.randrange(5)
+    if mb:
+        v = rng.choice([1, 3, 1, 3, 0, 2, 4])
+        buf = mb if v in (1, 3) else rng.choice([1, 2, 3, mb, mb + 2])
     pairs = []
     for p in range(P):
         if rng.random() < 0.35:
@@ -129,7 +145,7 @@ def gen_one(rng, maxP, allow_allzero, force_allzero=False):
                 if sl and not any(sizes[p][i] for i in sl):
                     sizes[p][rng.choice(sl)] = rng.choice([x for x in alpha if x > 0] or [1])
     seed = rng.randrange(1, 1 << 30) if rng.random() < 0.85 else 0
-    return fmt_case(P, mode, d, buf, seed, NI, entries, sizes)
+    return fmt_case(P, mode, d, buf, seed, NI, entries, sizes, v, dt, mb)
 
 
 def corpus_cases():
@@ -186,7 +202,12 @@ def oracle(case_line, impl_line, spec):
         return None          # counted in the evidence as not validated
     if impl_line.startswith("CRASH") or impl_line.startswith("BADCASE"):
         return "no observation: " + impl_line[:120]
-    pub = impl_line.split(" ||")[0]
+    pub, _, deep = impl_line.partition(" ||")
+    if case_line is not None:
+        lim = parse_case(case_line)["buf"]
+        big = [int(x) for mm in re.finditer(r" \d+>\d+:([\d.]+)", deep) for x in mm.group(1).split(".") if int(x) > lim]
+        if big:
+            return "a message of %d items exceeds the configured maximum buffer size %d" % (max(big), lim)
     if pub != spec:
         return "scatter calls differ from what the peers gathered (lost/duplicated/misattributed item or wrong count)"
     return None
@@ -198,18 +219,29 @@ def sig_of(c, impl_line):
         return "C06:hang:%s%s" % (mode, "-allzero" if has_allzero(c) else "")
     if impl_line.startswith("CRASH"):
         return "C06:crash:%s" % mode
+    if oracle(None, impl_line, impl_line.split(" ||")[0]) is None and " ||" in impl_line and \
+       any(int(x) > c["buf"] for mm in re.finditer(r" \d+>\d+:([\d.]+)", impl_line.split(" ||")[1]) for x in mm.group(1).split(".")):
+        return "C06:buffer-exceeded:%s" % mode
     return "C06:delivery:%s" % mode
+
+
+def params_hook(ctx):
+    V.sh([sys.executable, os.path.join(V.VERIF, "tools", "extract_params.py"), ctx.repo], check=True)
 
 
 def build(ctx):
     model = V.build_model(ctx)
-    impl = V.cxx(ctx, HARNESS, ctx.path("impl"), mpi=True, opt="-O1")
-    return model, impl
+    impl, impl_mb = V.cxx_many(ctx, [
+        dict(srcs=HARNESS, out=ctx.path("impl"), mpi=True, opt="-O1"),
+        dict(srcs=HARNESS, out=ctx.path("impl_mb"), mpi=True, opt="-O1", flags=["-DDUNE_PARALLEL_MAX_COMMUNICATION_BUFFER_SIZE=%d" % MACRO_BUF]),
+    ])
+    return model, (impl, impl_mb)
 
 
 def run(ctx):
+    ctx.params_hook = params_hook
     V.coq_stage(ctx)
-    model, impl = build(ctx)
+    model, (impl, impl_mb) = build(ctx)
     quick = ctx.quick
     NP = 4 if quick else 6
     rng = ctx.rng("gen")
@@ -253,18 +285,28 @@ def run(ctx):
             if is_hang(l2): cov["hang_cases_confirmed"] += 1
             else: ctx.notes.append("case %d timed out under load but returned when re-run alone" % i)
             io[i] = l2
-    cases = stage1_cases + cases
-    io = stage1_impl + io
+    # the binary whose translation unit defines DUNE_PARALLEL_MAX_COMMUNICATION_BUFFER_SIZE (other constructor overloads)
+    mcases = [gen_one(rng, NP, allow_allzero=not tree_hangs_on_allzero, mb=MACRO_BUF) for _ in range(160 if quick else 1200)]
+    mio, shim2 = run_impl(ctx, impl_mb, NP, mcases, "implmb", case_timeout=20 if quick else 40)
+    for i, l in enumerate(mio):
+        if is_hang(l) and cov["hang_cases_confirmed"] < 3:
+            l2 = confirm_hang(ctx, impl_mb, NP, mcases[i], "hcm")
+            if is_hang(l2): cov["hang_cases_confirmed"] += 1
+            mio[i] = l2
+    shim = [a + b for a, b in zip(shim, shim2)]
+    cases = stage1_cases + cases + mcases
+    io = stage1_impl + io + mio
     mo = V.run_cases(ctx, [model], cases, tag="model", timeout=900)
 
     nviol = ndis = ndrift = 0
     match_cur = match_new = discriminating = 0
-    feats, dist = {}, {"mode": {}, "dir": {}, "P": {}, "buf": {}}
+    feats, dist = {}, {"mode": {}, "dir": {}, "P": {}, "buf": {}, "api_path": {}, "data_type": {}, "macro_buffer": {}}
     rounds_hist = {}
     nontrivial = set()
     for c, a, m in zip(cases, io, mo):
         pc = parse_case(c)
-        for k, v in (("mode", "var" if pc["mode"] else "fixed"), ("dir", "backward" if pc["dir"] else "forward"), ("P", pc["P"]), ("buf", pc["buf"])):
+        for k, v in (("mode", "var" if pc["mode"] else "fixed"), ("dir", "backward" if pc["dir"] else "forward"), ("P", pc["P"]), ("buf", pc["buf"]),
+                     ("api_path", API.get(pc["v"])), ("data_type", DTYPE.get(pc["t"])), ("macro_buffer", pc["mb"])):
             dist[k][str(v)] = dist[k].get(str(v), 0) + 1
         for f in features(pc): feats[f] = feats.get(f, 0) + 1
         parts = m.split(" ## ")
@@ -316,8 +358,9 @@ def run(ctx):
         "rule": "cases = corpus (F-C06-1 witnesses first) + seeded random cases: P in 1..%d ranks, symmetric random relation incl. self entries, "
                 "empty lists and ranks without interface, index lists of length 0..9 with repeated indices over 1..6 local indices, fixed-size and "
                 "variable-size recording handle, sizes from {0,1,2,3,buf-1,buf}, buffer sizes {1,2,3,4,5,7,8,16,40,32768}, forward and backward, "
-                "PMPI-perturbed completion order from the case seed; non-trivial = at least one item is communicated; distinct = distinct case lines. "
-                "While the tree hangs on all-zero interfaces (F-C06-1 open) only the corpus witnesses exercise them." % NP,
+                "PMPI-perturbed completion order from the case seed; every public construction path (4 constructors, copy construction, copy/self assignment, "
+                "object reuse, non-default Allocator; a second binary with DUNE_PARALLEL_MAX_COMMUNICATION_BUFFER_SIZE=%d) and 5 handle DataTypes; non-trivial = at least one item is communicated; distinct = distinct case lines. "
+                "While the tree hangs on all-zero interfaces (F-C06-1 open) only the corpus witnesses exercise them." % (NP, MACRO_BUF),
         "samples": cases[:2] + cases[len(cases) // 2: len(cases) // 2 + 2] + cases[-1:],
         "distribution": dist, "features_hit": feats, "messages_per_link_histogram": {str(k): v for k, v in sorted(rounds_hist.items())},
         "impl_model_disagreements": ndis, "oracle_rejections": nviol, "deep_stream_drift": ndrift,
@@ -333,9 +376,9 @@ def run(ctx):
 def replay(ctx, path):
     rep = json.load(open(path))
     case = rep["case"]
-    model, impl = build(ctx)
+    model, (impl, impl_mb) = build(ctx)
     pc = parse_case(case)
-    io, _ = run_impl(ctx, impl, max(pc["P"], 2), [case], "rimpl", case_timeout=20)
+    io, _ = run_impl(ctx, impl_mb if pc["mb"] else impl, max(pc["P"], 2), [case], "rimpl", case_timeout=20)
     mo = V.run_cases(ctx, [model], [case], tag="rmodel")
     cur, new, spec = (mo[0].split(" ## ") + ["", "", ""])[:3]
     print("case  :", case); print("impl  :", io[0]); print("model (tree code) :", cur); print("model (fixed code):", new); print("spec  :", spec)
